@@ -858,6 +858,14 @@ class Builtins:
             return self.container_ctor('list', [recv], st, node)
         if meth in ('append', 'add', 'extend', 'update', 'pop', 'remove', 'discard', 'setdefault') and not recv.fresh:
             self.frame_violation(st, f'{self.src(node)}', node)
+        if meth == 'print_error' and not self.spec_mode:
+            # virtual call through the ErrorNode interface: total, PROVIDED a DuplicateKeyError is never rendered inside a sum
+            ins = kwargs.get('inside_sum', args[1] if len(args) > 1 else None)
+            inside = self.truth(ins, st) if ins is not None else z3.BoolVal(False)
+            self.emit(Obligation(self.cur_func_key, 'pre', f'{self.next_label()}:print_error', self.cur_props, list(st.pc),
+                                 z3.Implies(th.isc('DuplicateKeyError')(t), z3.Not(inside)),
+                                 origin=f'precondition of ErrorNode.print_error at {self.src(node)[:60]} (a duplicate-key node is not rendered inside a sum)',
+                                 path_kind='call'))
         if meth == 'keys' and kind is None:
             raise OutOfSubset('keys() on value of unknown kind: add a shape hint', node)
         spec = self.VAL_METHODS.get(meth)
@@ -1158,6 +1166,9 @@ class Builtins:
         if name == 'zlen':
             a_, b_ = self.toInt(args[0], st), self.toInt(args[1], st)
             return [(VInt(z3.If(b_ < a_, b_, a_)), st)]
+        if name == 'ghost_int':
+            ps = [self.toVal(x, st) for x in args[1:]]
+            return [(VInt(th.fn('ghosti_' + args[0].py[1], *([th.Val] * len(ps)), th.I)(*ps)), st)]
         if name == 'ghost':
             # ghost("NAME", *entry_params) -> Bool
             ps = [self.toVal(x, st) for x in args[1:]]
